@@ -3,6 +3,7 @@ pub mod conv;
 pub mod props;
 pub mod props2;
 pub mod props3;
+pub mod props4;
 
 use crate::runner::Check;
 
@@ -26,5 +27,7 @@ pub fn all_checks() -> Vec<Box<dyn Check>> {
         Box::new(props3::C15),
         Box::new(props3::C19),
         Box::new(props3::C20),
+        Box::new(props4::c11()),
+        Box::new(props4::c18()),
     ]
 }
